@@ -209,10 +209,9 @@ def gen_stream(rng, style=None, plain=False, doubling=None):
       col = _pac(em, rng, base, opts)
       _row_items(em, rng, col, opts, st)
       if (not plain) and rng.random() < 0.1:
-        depth = rng.choice([2, 3, 4])
+        # another depth for the next line; the window must fit above the base row
+        depth = rng.choice([d for d in (2, 3, 4) if d <= base])
         em.features.add("depth_change")
-        if base < depth:
-          base = 15
     else:
       em.code(U.w_ctl("RDC"))
       rows = rng.sample(range(1, 16), rng.randint(1, 3))
